@@ -551,7 +551,8 @@ impl FallbackHelper for i128 {
 
     #[inline]
     fn shift_lo_up(self) -> i128 {
-        debug_assert!(self >> 64 == 0);
+        // self is a carry, which is negative when the signed middle column wraps downwards
+        debug_assert!(self >> 64 == if self < 0 { -1 } else { 0 });
         self << 64
     }
 
